@@ -98,7 +98,7 @@ func H16_small() {
 var vhFamilies = [][5]int{
 	// r1, r2, r3, lr, lt            (quick tier: the first `families` entries)
 	{80, 0, 1, 8, 12}, {200, 0, 1, 8, 12}, {85, 0, 3, 8, 12}, {30, 3, 1, 8, 10}, {80, 0, 1, 12, 16}, {255, 0, 1, 8, 9},
-	{70, 0, 2, 8, 11}, {250, 0, 6, 8, 12}, {90, 60, 16, 8, 12}, {100, 10, 2, 8, 12}, {120, 20, 4, 8, 12}, {128, 64, 8, 8, 13},
+	{70, 0, 2, 8, 11}, {-250, 0, 6, 8, 12}, {-250, 1, 1, 8, 15}, {-254, 1, 1, 8, 10}, {250, 0, 6, 8, 12}, {90, 60, 16, 8, 12}, {100, 10, 2, 8, 12}, {120, 20, 4, 8, 12}, {128, 64, 8, 8, 13},
 	{150, 50, 2, 8, 12}, {60, 100, 1, 8, 12}, {10, 200, 1, 8, 12}, {40, 40, 40, 8, 12}, {1, 1, 1, 8, 9}, {2, 250, 4, 8, 14},
 	{254, 1, 1, 8, 10}, {96, 8, 1, 8, 12}, {180, 30, 10, 8, 12}, {16, 0, 1, 8, 9}, {64, 0, 0, 8, 12}, {0, 0, 256, 8, 12},
 	{256, 0, 0, 8, 12}, {80, 0, 1, 16, 20}, {200, 0, 1, 12, 20}, {250, 0, 6, 16, 27}, {80, 0, 1, 9, 27}, {200, 0, 1, 10, 14},
@@ -111,6 +111,12 @@ func H16_family() {
 	scale := 1 << uint(fam[3])
 	T := 1 << uint(fam[4])
 	a := vhInt("a")
+	if sh[0] < 0 {
+		// a negative r1 marks a family whose rare symbols all have the CONCRETE count 1 (keeps the per-symbol
+		// decisions of 250 rare symbols out of the solver); b and c stay symbolic
+		sh[0] = -sh[0]
+		a = 1
+	}
 	b := vhInt("b")
 	c := vhInt("c")
 	vhAssume(vhAnd(a >= 1, vhAnd(a <= b, b <= c)))
